@@ -104,7 +104,7 @@ static unsigned deviation(const Outcome& m, const Outcome& i, bool sorted_report
   else if (!reps_match(mr, 0, i.reps, 0, F_REPCULPRIT, nullptr)) dev |= F_REPCULPRIT;
   else if (!reps_match(mr, 0, i.reps, 0, F_REPCULPRIT | F_REPDETAIL, nullptr)) dev |= F_REPDETAIL;
   else { if (!reps_match(mr, 0, i.reps, 0, F_REPCULPRIT | F_REPDETAIL | F_MISC, lenient)) dev |= F_MISC; }
-  if (m.oks != i.oks) dev |= F_OK;
+  if (m.oks != i.oks) dev |= F_OKREP;
   if (!strs_match(m.traces, 0, i.traces, 0)) dev |= F_TRACE;
   if (m.clog != i.clog) dev |= F_CLOG;
   if (m.qexp != i.qexp) dev |= F_QEXP;
@@ -203,7 +203,7 @@ static Hash128 hash_key(const std::string& s) {
 constexpr int MAXD = 12;
 struct Node { MState st; int32_t prefix; uint8_t len; uint8_t hist[MAXD]; };
 struct Rec { uint8_t type; Hash128 h; Node n; };  // type 1 successor, 2 end-of-worker stats
-struct Stats { long transitions = 0, ops = 0, fenced = 0, foreign = 0, lenient = 0, violations = 0, disabled = 0, selfcheck_fail = 0; };
+struct Stats { long transitions = 0, ops = 0, fenced = 0, foreign = 0, lenient = 0, violations = 0, disabled = 0, selfcheck_fail = 0, incomplete = 0; };
 struct Flight { volatile int node, opidx, alive; };
 
 static void write_all(int fd, const void* p, size_t n) { const char* c = (const char*)p; while (n) { ssize_t k = write(fd, c, n); if (k <= 0) { if (errno == EINTR) continue; _exit(3); } c += k; n -= (size_t)k; } }
@@ -255,6 +255,7 @@ struct Explorer {
     std::unordered_set<Hash128, Hash128H> local;
     for (size_t j = (size_t)id; j < frontier.size(); j += (size_t)workers) {
       const Node& n = frontier[j];
+      if ((j / (size_t)workers) % 64 == 0 && elapsed() > deadline_s) { s.incomplete = 1; break; }
       Model base; base.st = n.st; base.guards = guards;
       if (n.len == 0 && !p.prefixes[(size_t)n.prefix].empty()) {
         // the configuration prefix itself is a history: validate it before anything is built on it
@@ -326,7 +327,7 @@ struct Explorer {
     {
       std::ostringstream path; path << tmp_dir << "/w" << id << ".txt";
       std::ofstream f(path.str());
-      f << s.transitions << ' ' << s.ops << ' ' << s.fenced << ' ' << s.foreign << ' ' << s.lenient << ' ' << s.violations << ' ' << s.disabled << ' ' << s.selfcheck_fail << '\n';
+      f << s.transitions << ' ' << s.ops << ' ' << s.fenced << ' ' << s.foreign << ' ' << s.lenient << ' ' << s.violations << ' ' << s.disabled << ' ' << s.selfcheck_fail << ' ' << s.incomplete << '\n';
       f << classes.size() << '\n'; for (auto& c : classes) f << c << '\n';
       f << wsamples.size() << '\n'; for (auto& c : wsamples) f << c << '\n';
     }
@@ -417,7 +418,8 @@ struct Explorer {
         }
         std::ostringstream path; path << tmp_dir << "/w" << i << ".txt";
         std::ifstream f(path.str());
-        Stats s; f >> s.transitions >> s.ops >> s.fenced >> s.foreign >> s.lenient >> s.violations >> s.disabled >> s.selfcheck_fail;
+        Stats s; f >> s.transitions >> s.ops >> s.fenced >> s.foreign >> s.lenient >> s.violations >> s.disabled >> s.selfcheck_fail >> s.incomplete;
+        if (s.incomplete) level_ok = false;
         transitions += s.transitions; ops += s.ops; fenced += s.fenced; foreign += s.foreign; lenient += s.lenient; violations += s.violations; selfcheck_fail += s.selfcheck_fail;
         size_t nc; f >> nc; std::string line; std::getline(f, line);
         for (size_t c = 0; c < nc; ++c) { std::getline(f, line); outcome_classes.insert(line); }
@@ -430,7 +432,7 @@ struct Explorer {
           replay_files.push_back(np.str());
         }
       }
-      if (!level_ok) exhaustive = false;
+      if (!level_ok) { exhaustive = false; if (violations == 0) { fprintf(stderr, "[%s %s] plan %s: level %d not completed (deadline or worker failure)\n", prop.c_str(), tier.c_str(), p.name.c_str(), depth + 1); break; } }
       depth_done = depth + 1;
       fprintf(stderr, "[%s %s] plan %s depth %d: frontier %zu -> %zu new states, transitions so far %ld, violations %ld, %.1fs\n", prop.c_str(), tier.c_str(), p.name.c_str(), depth + 1, frontier.size(), next.size(), transitions, violations, elapsed());
       frontier.swap(next);
@@ -512,7 +514,7 @@ int main(int argc, char** argv) {
       << " \"assumptions\": [\"reference model (engines/histmc/model.hpp) is the reading of the property statements\", \"bounds: see plans\", \"merged exploration assumes equal model states have equal implementation futures beyond the unmerged depth\"],\n"
       << " \"wall_s\": " << wall << ",\n \"violations\": " << ex.violations << "\n}\n";
   }
-  for (auto& r : ex.replay_files) printf("VIOLATION property=%s replay=%s\n", prop.c_str(), r.c_str());
+  { size_t shown = 0; for (auto& r : ex.replay_files) { if (shown++ < 5) printf("VIOLATION property=%s replay=%s\n", prop.c_str(), r.c_str()); else remove(r.c_str()); } }
   if (ex.violations && ex.replay_files.empty()) printf("VIOLATION property=%s replay=%s\n", prop.c_str(), replay_dir.c_str());
   fprintf(stderr, "[%s %s] states=%ld transitions=%ld ops=%ld classes=%zu fenced=%ld foreign=%ld lenient=%ld violations=%ld exhaustive=%d wall=%.1fs\n", prop.c_str(), tier.c_str(), ex.states, ex.transitions, ex.ops, ex.outcome_classes.size(), ex.fenced, ex.foreign, ex.lenient, ex.violations, (int)ex.exhaustive, wall);
   if (ex.violations) return 1;
